@@ -593,3 +593,91 @@ Fixpoint nv_run (x : nv) (ops : list nv_op) : list (strat * list N) :=
   | NvQuery l r :: ops' => (let '(s, ids) := nv_scan x l r in (s, nsort_dup ids)) :: nv_run x ops'
   | o :: ops' => nv_run (nv_step x o) ops'
   end.
+
+(* ================================================================== 5. iterEndpointCandidates
+   (felix/labelindex/named_port_index.go): the pruning step that uses the restriction summaries.  Endpoints are
+   indexed by their OWN labels (np_eps), parents by theirs (np_pars); np_children is parent -> endpointIDs.  For
+   each restriction, in the iteration order of the restriction map (the list R), the best endpoint strategy and
+   the best parent strategy are tracked; a restriction that neither an endpoint nor a parent can meet ends the
+   scan with no candidates. *)
+
+(* ScanStrategy.EstimatedItemsToScan of the strategy StrategyFor returns *)
+Definition nv_est (x : nv) (l : bytes) (r : restr) : nat :=
+  if negb (r_present r) then length (nv_items x)
+  else match r_vals r with
+       | None => match blookup l (nv_idx x) with
+                 | None => 0
+                 | Some vals => length (flat_map snd vals)        (* values.count *)
+                 end
+       | Some vs =>
+           let vals := odflt [] (blookup l (nv_idx x)) in
+           let sets := flat_map (fun v => match blookup v vals with Some ids => [ids] | None => [] end) vs in
+           match sets with
+           | [] => 0
+           | [ids] => length ids
+           | _ => length (concat sets)
+           end
+       end%nat.
+
+Record np := { np_eps : nv; np_pars : nv; np_children : list (N * list N) }.
+Definition np_kids (x : np) (p : N) : list N := odflt [] (nlookup p (np_children x)).
+
+Record best := { b_ep : list N; b_ep_est : nat; b_par : option (list N * nat) }.
+
+Section Iter.
+  (* estimateParentEndpointScanCount: how many endpoints a parent scan is expected to touch *)
+  Variable pest : np -> list N -> nat.
+
+  Definition iter_step (x : np) (st : option best) (e : bytes * restr) : option best :=
+    match st with
+    | None => None
+    | Some b =>
+        let '(k, r) := e in
+        let eps := nv_est (np_eps x) k r in
+        let pars := nv_est (np_pars x) k r in
+        if Nat.ltb 0 eps && Nat.eqb pars 0 then
+          Some (if Nat.ltb eps (b_ep_est b)
+                then {| b_ep := snd (nv_scan (np_eps x) k r); b_ep_est := eps; b_par := b_par b |} else b)
+        else if Nat.eqb eps 0 && Nat.ltb 0 pars then
+          let scan := snd (nv_scan (np_pars x) k r) in
+          let pe := pest x scan in
+          Some (if match b_par b with None => true | Some (_, old) => Nat.ltb pe old end
+                then {| b_ep := b_ep b; b_ep_est := b_ep_est b; b_par := Some (scan, pe) |} else b)
+        else if Nat.ltb 0 pars && Nat.ltb 0 eps then Some b
+        else None
+    end.
+
+  Definition iter_candidates (x : np) (R : rmap) : list N :=
+    match fold_left (iter_step x) R
+            (Some {| b_ep := map fst (nv_items (np_eps x)); b_ep_est := length (nv_items (np_eps x)); b_par := None |}) with
+    | None => []
+    | Some b =>
+        match b_par b with
+        | None => b_ep b
+        | Some (scan, pe) => if Nat.leb (b_ep_est b) pe then b_ep b else nsort (flat_map (np_kids x) scan)
+        end
+    end.
+End Iter.
+
+(* exact when the parent scan yields at most 10 parents (the only case the driver produces) *)
+Definition pest_exact (x : np) (scan : list N) : nat :=
+  fold_left (fun n p => (n + length (np_kids x p))%nat) scan 0%nat.
+
+(* build the index contents from plain data: endpoints (own labels, parent ids) and parent labels *)
+Definition np_of (eps : list (N * (labels * list N))) (pars : list (N * labels)) : np :=
+  let named := nsort (flat_map (fun e => snd (snd e)) eps ++ map fst pars) in
+  {| np_eps := fold_left (fun x e => nv_add (fst e) (fst (snd e)) x) eps nv_empty;
+     np_pars := fold_left (fun x p => nv_add p (odflt [] (nlookup p pars)) x) named nv_empty;
+     np_children := map (fun p => (p, nsort (flat_map (fun e => if memN p (snd (snd e)) then [fst e] else []) eps))) named |}.
+
+(* all orders in which a (small) restriction map may be ranged *)
+Fixpoint insert_all {A} (a : A) (l : list A) : list (list A) :=
+  match l with
+  | [] => [[a]]
+  | b :: l' => (a :: l) :: map (cons b) (insert_all a l')
+  end.
+Fixpoint perms {A} (l : list A) : list (list A) :=
+  match l with
+  | [] => [[]]
+  | a :: l' => flat_map (insert_all a) (perms l')
+  end.
